@@ -140,7 +140,7 @@ def _unwrap_cases(L, batching):
 def _cw_cases():
   for out in ('ok', 'fail'):
     for on_hub in (True, False):
-      for fnk in ('ret', 'raise'):
+      for fnk in ('ret', 'raise', 'raiseb'):
         s = [['set', 1, out]]
         for k in (0, 1):
           for ops in _ops_from(s[:k], s[k:], True):
@@ -149,7 +149,7 @@ def _cw_cases():
 
 def _map_cases():
   for out in ('ok', 'fail'):
-    for fnk in ('ret', 'raise'):
+    for fnk in ('ret', 'raise', 'raiseb'):
       s = [['set', 1, out]]
       for k in (0, 1):
         for ops in _ops_from(s[:k], s[k:], True):
@@ -261,6 +261,13 @@ class _Ctx(object):
         self.vid = vid
     self.AsyncResult = AsyncResult
     self.Err = ScriptedError
+
+    class ScriptedBaseError(BaseException):
+      """like gevent.Timeout / GreenletExit: not an Exception subclass; a continuation may raise one"""
+      def __init__(self, vid):
+        BaseException.__init__(self, 'scripted base %d' % vid)
+        self.vid = vid
+    self.BaseErr = ScriptedBaseError
     self.comb = comb
     self.n = n
     self.on_hub = on_hub
@@ -298,9 +305,9 @@ class _Ctx(object):
 
       def cont(_ar):
         rdy = bool(_ar.ready())
-        if self.fnk == 'raise':
+        if self.fnk in ('raise', 'raiseb'):
           self.ev.append({'e': 'Run', 'ready': rdy, 'out': 'raise', 'v': 77})
-          raise self.Err(77)
+          raise (self.Err if self.fnk == 'raise' else self.BaseErr)(77)
         if _ar.exception is not None:
           w = 200 + int(getattr(_ar.exception, 'vid', 0))
         elif isinstance(_ar.value, int):
@@ -315,9 +322,9 @@ class _Ctx(object):
 
       def fn(v):
         arg = v if isinstance(v, int) and not isinstance(v, bool) else -2
-        if self.fnk == 'raise':
+        if self.fnk in ('raise', 'raiseb'):
           self.ev.append({'e': 'Run', 'arg': arg, 'out': 'raise', 'v': 77})
-          raise self.Err(77)
+          raise (self.Err if self.fnk == 'raise' else self.BaseErr)(77)
         if self.fnk == 'nest':
           self.ev.append({'e': 'Run', 'arg': arg, 'out': 'nest', 'v': 2})
           return self.ars[2]
